@@ -101,6 +101,11 @@ class ElabPass:
         `elaborate_module_base` instead.
         """
 
+        # Check whether an earlier pass failed while rewriting this Module.
+        # Such Modules may be partially rewritten. They are never elaborated further; the original error is raised again.
+        if module._elab_error is not None:
+            raise module._elab_error
+
         # Check if this has already been elaborated by this pass/ class
         if module in self.CLASS_LEVEL_CACHE.done:
             return module
@@ -115,24 +120,32 @@ class ElabPass:
             return self.fail(msg)
         self.CLASS_LEVEL_CACHE.pending.add(module)
 
-        # Depth-first traverse instances, ensuring their targets are defined
-        for inst in module.instances.values():
-            self.elaborate_instance_base(inst)
-        for arr in module.instarrays.values():
-            self.elaborate_instance_base(arr)
-        for instbundle in module.instbundles.values():
-            self.elaborate_instance_base(instbundle)
+        try:
+            # Depth-first traverse instances, ensuring their targets are defined
+            for inst in module.instances.values():
+                self.elaborate_instance_base(inst)
+            for arr in module.instarrays.values():
+                self.elaborate_instance_base(arr)
+            for instbundle in module.instbundles.values():
+                self.elaborate_instance_base(instbundle)
 
-        # Traverse Bundle instances
-        for bundle in module.bundles.values():
-            self.elaborate_bundle_instance(bundle)
+            # Traverse Bundle instances
+            for bundle in module.bundles.values():
+                self.elaborate_bundle_instance(bundle)
 
-        # Run the pass-specific `elaborate_module`
-        result = self.elaborate_module(module)
+            # Run the pass-specific `elaborate_module`
+            try:
+                result = self.elaborate_module(module)
+            except Exception as e:
+                # The pass failed on `module` itself, potentially having partially rewritten it. Remember that.
+                module._elab_error = e
+                raise
+        finally:
+            # Whether successful or not, `module` is no longer pending
+            self.CLASS_LEVEL_CACHE.pending.discard(module)
 
         # Pop the hierarchy-stack and return it
         self.stack.pop()
-        self.CLASS_LEVEL_CACHE.pending.remove(module)
         self.CLASS_LEVEL_CACHE.done.add(module)
         return result
 
